@@ -28,6 +28,7 @@ use vharness::*;
 mod oracle_c05;
 mod oracle_c06;
 mod oracle_c18;
+mod script_c05;
 mod script_c18;
 mod step;
 use step::Step;
@@ -573,7 +574,7 @@ fn main() {
                 i += 1;
             }
             "--script" => {
-                // scripted exhaustive sessions (currently: c18) instead of generated ones
+                // scripted sessions (c18: exhaustive character sweep, c05: limit overshoots) instead of generated ones
                 script_name = Some(args[i + 1].clone());
                 i += 1;
             }
@@ -581,8 +582,8 @@ fn main() {
         }
         i += 1;
     }
-    if script_name.is_some() {
-        n_sessions = script_c18::n_sessions(thorough);
+    if let Some(name) = &script_name {
+        n_sessions = if name == "c05" { script_c05::n_sessions(thorough) } else { script_c18::n_sessions(thorough) };
         ops_per = 100_000;
     }
     // panics inside the editor are outcomes, not noise
@@ -643,13 +644,17 @@ fn main() {
         let mut pending: Vec<Op> = vec![];
         let mut history: Vec<String> = vec![];
 
-        let mut script = script_name.as_ref().map(|_| script_c18::Script::new(sid, thorough));
+        let mut script18 = script_name.as_ref().filter(|n| *n != "c05").map(|_| script_c18::Script::new(sid, thorough));
+        let mut script05 = script_name.as_ref().filter(|n| *n == "c05").map(|_| script_c05::Script::new(sid, thorough));
         for _ in 0..ops_per {
-            let op = match &mut script {
-                Some(sc) => match sc.next(&s.ed.verif_snapshot()) {
-                    Some(op) => op,
-                    None => break,
-                },
+            let scripted = match (&mut script18, &mut script05) {
+                (Some(sc), _) => Some(sc.next(&s.ed.verif_snapshot())),
+                (_, Some(sc)) => Some(sc.next(&s.ed.verif_snapshot())),
+                _ => None,
+            };
+            let op = match scripted {
+                Some(Some(op)) => op,
+                Some(None) => break,
                 None => gen_op(&mut rng, &s, &pool, &mut pending, uniform),
             };
             let ev = match &op {
@@ -761,6 +766,7 @@ fn main() {
         // the Editor owns the user dictionary; dropping it here keeps `user_ptr` valid above
         drop(s);
     }
+    oracle_c05::finish(&mut out);
     oracle_c18::finish(&mut out);
     out.stat("sessions", n_sessions);
     out.stat("ops", n_ops);
